@@ -175,6 +175,7 @@ func (c *Ctx) checkEscapeReaders(r *Report, rule string) {
 	readString := c.SSAFn(c.Fn("lexer", "Lexer.readString"))
 	readChar := c.Fn("lexer", "Lexer.readChar")
 	peekChar := c.Fn("lexer", "Lexer.peekChar")
+	lexT := c.TypeNamed("lexer", "Lexer")
 	skip := map[*ssa.Function]bool{readString: true, c.SSAFn(readChar): true, c.SSAFn(peekChar): true}
 	// functions reachable from readString by static calls inside the lexer package
 	reach := map[*ssa.Function]bool{}
@@ -198,11 +199,22 @@ func (c *Ctx) checkEscapeReaders(r *Report, rule string) {
 	for fn := range reach {
 		fname := ssaFuncName(fn)
 		k := 0
-		for _, ci := range callsIn(fn, readChar) {
-			call, ok := ci.(*ssa.Call)
-			if !ok {
-				continue
+		// consumption: readChar(), or the position advanced by hand (readChar inlined)
+		type consume struct {
+			in   ssa.Instruction
+			recv ssa.Value
+		}
+		var sites []consume
+		eachInstr(fn, func(in ssa.Instruction) {
+			if call, ok := in.(*ssa.Call); ok && isCallTo(call, readChar) {
+				sites = append(sites, consume{call, call.Common().Args[0]})
 			}
+			if st, ok := in.(*ssa.Store); ok && isFieldAddrOf(st.Addr, lexT, "pos") {
+				sites = append(sites, consume{st, st.Addr.(*ssa.FieldAddr).X})
+			}
+		})
+		for _, site := range sites {
+			call := site.in
 			n++
 			k++
 			desc := "byte consumed after a test that rejects the delimiters"
@@ -213,7 +225,7 @@ func (c *Ctx) checkEscapeReaders(r *Report, rule string) {
 			var peek *ssa.Call
 			for _, pc := range callsIn(fn, peekChar) {
 				pcv, ok := pc.(*ssa.Call)
-				if ok && sameValue(pcv.Common().Args[0], call.Common().Args[0]) && instrDominates(pcv, call) {
+				if ok && sameValue(pcv.Common().Args[0], site.recv) && instrDominates(pcv, call) {
 					if peek == nil || instrDominates(peek, pcv) {
 						peek = pcv
 					}
